@@ -405,7 +405,9 @@ func translateOp(fd *ast.FuncDecl, file string) (m *machine, reason string) {
 		skip("application function does not end in a return")
 	}
 	call, ok := aret.Results[0].(*ast.CallExpr)
-	if !ok || calleeName(call) != "NewUnsafeObservableWithContext" || len(call.Args) != 1 {
+	// the constructor decides only which mutex the subscriber gets (C02: Catalogue table); the
+	// single-source template is the same for the unsafe and the safe constructor
+	if !ok || (calleeName(call) != "NewUnsafeObservableWithContext" && calleeName(call) != "NewObservableWithContext") || len(call.Args) != 1 {
 		skip("application function returns %s, not NewUnsafeObservableWithContext(func…)", src(aret.Results[0]))
 	}
 	subFn, ok := call.Args[0].(*ast.FuncLit)
